@@ -93,7 +93,10 @@ int main(int argc, char** argv) {
     glm::vec<3, T, glm::defaultp> S(std::abs(x[7]) + T(0.5), std::abs(x[8]) + T(0.5), std::abs(x[9]) + T(0.5)), K(x[10] * T(0.2), x[11] * T(0.2), x[12] * T(0.2));
     int mask = (int)((std::abs((double)x[16]) * 3.99)) & 7;
     glm::vec<4, T, glm::defaultp> P((mask & 1) ? x[13] * T(0.1) : T(0), (mask & 2) ? x[14] * T(0.1) : T(0), (mask & 4) ? x[15] * T(0.1) + T(0.05) : T(0), T(1));
-    auto M = glm::recompose(S, q, ldv<3, T>(x), K, P);
+    // even masks: composed by recompose (the perspective row gets mixed by the other factors); odd masks: the perspective entries written
+    // straight into the last row of the TRS+skew matrix (so that 'only z' etc. really occur)
+    auto M = glm::recompose(S, q, ldv<3, T>(x), K, ((int)(std::abs((double)x[15]) * 100) & 1) ? glm::vec<4, T, glm::defaultp>(0, 0, 0, 1) : P);
+    if ((int)(std::abs((double)x[15]) * 100) & 1) { M[0][3] = P.x; M[1][3] = P.y; M[2][3] = P.z; }
     glm::vec<3, T, glm::defaultp> sc, tr, sk; glm::vec<4, T, glm::defaultp> pe; glm::qua<T, glm::defaultp> o;
     if (!glm::decompose(M, sc, o, tr, sk, pe)) return T(-1);
     auto M2 = glm::recompose(sc, o, tr, sk, pe);
